@@ -38,6 +38,8 @@ type Script struct {
 	Quit    string `json:"quit"`               // reaction to SIGQUIT: default | ignore | delay
 	QuitNs  int64  `json:"quit_ns,omitempty"`  // delay: exits this long after the SIGQUIT
 	HoldNs  int64  `json:"hold_ns,omitempty"`  // a descendant of the main command keeps its output pipes open this long after it exited (Wait returns only then)
+	Busy    bool   `json:"busy,omitempty"`     // the script first tries ("! exec") a program file that is still open for writing (ETXTBSY)
+	BigOut  bool   `json:"big_out,omitempty"`  // the main command prints 1.1 MB before it blocks
 	HoldG   bool   `json:"hold_g,omitempty"`   // early mode: the descendant holds the pipes for one and a half grace periods (as aimed; 150 ms without a deadline)
 	Code    int    `json:"code,omitempty"`     // exit code of a natural exit
 	Neg     bool   `json:"neg,omitempty"`      // the main command is written "! exec"
@@ -97,6 +99,8 @@ func genPlan(t *rapid.T, tier string) any {
 		if s.Mode == "early" && rapid.IntRange(0, 3).Draw(t, "holdg") == 0 {
 			s.HoldG = true
 		}
+		s.Busy = rapid.IntRange(0, 9).Draw(t, "busy") == 0
+		s.BigOut = rapid.IntRange(0, 24).Draw(t, "bigout") == 0
 		s.Code = rapid.SampledFrom([]int{0, 0, 0, 1}).Draw(t, "code")
 		s.Neg = rapid.IntRange(0, 4).Draw(t, "neg") == 0
 		s.After = rapid.IntRange(0, 2).Draw(t, "after")
@@ -139,6 +143,9 @@ var timing = regexp.MustCompile(`\(\d+\.\d+s\)`)
 func scriptText(i int, s Script, interruptAt, grace time.Duration) string {
 	var b strings.Builder
 	fmt.Fprintf(&b, "# script %d\nprobe start\n", i)
+	if s.Busy {
+		b.WriteString("! exec ./busy-tool\n")
+	}
 	var elapsed time.Duration
 	// every duration carries its own odd nanosecond offset, so that a script which the T lets
 	// start late (after other scripts) cannot hit the interrupt or kill instant exactly: ties
@@ -198,6 +205,9 @@ func scriptText(i int, s Script, interruptAt, grace time.Duration) string {
 		}
 		main += fmt.Sprintf(" hold=%dns", int64(h)+29+int64(i))
 	}
+	if s.BigOut {
+		main += " bigout=1100000"
+	}
 	b.WriteString(main + " out=main\n")
 	for k := 0; k < s.After; k++ {
 		fmt.Fprintf(&b, "probe after%d\nexec stub run=%dns\n", k, 3000000+211+19*k+i)
@@ -224,7 +234,7 @@ func execute(t *testing.T, p *Plan, files []string, deadline time.Duration, keep
 	bin := tskit.BinDir("stub")
 	simos.SetEnvTable(map[string]string{"PATH": bin, "GOTMPDIR": gotmp, "HOME": "/nonexistent", "TMPDIR": gotmp})
 	defer simos.SetEnvTable(nil)
-	res.rep = simrt.Run(t, simrt.Options{Sched: p.Sched, MaxSteps: 100000, IdleCap: 2 * time.Hour, KeepTrace: keep}, func(s *simrt.Sim) {
+	res.rep = simrt.Run(t, simrt.Options{Sched: p.Sched, MaxSteps: 6000, IdleCap: 2 * time.Hour, KeepTrace: keep}, func(s *simrt.Sim) {
 		epoch := time.Now()
 		simexec.Reset(epoch)
 		root := tskit.NewRoot(s, epoch, p.Verbose)
@@ -323,6 +333,12 @@ func run(t *testing.T, plan any, keep bool) *simcheck.Outcome {
 	out.TraceHash, out.Steps, out.SimTime, out.Trace = rep.TraceHash, rep.Steps, rep.SimTime, rep.Trace
 	simcheck.Panics(out, rep.Panics)
 	if rep.StepCap {
+		// 6000 decisions is a hundred times what the longest plan needs. If the deadline has long passed
+		// on the simulated clock by then, something is spinning instead of stopping: that is a hang.
+		if D > 0 && rep.SimTime > D+time.Second {
+			out.Violate("hang", "RunT is still busy %v after the run began (deadline %v) and has used up its decision budget: %s", rep.SimTime, D, rep.DescribeBlocked())
+			return out
+		}
 		out.Inconclusive = "step cap: " + rep.DescribeBlocked()
 		return out
 	}
@@ -578,7 +594,7 @@ var harness = &simcheck.Harness{
 	Property: "C17",
 	Level:    "exploration",
 	Rule: "rapid draws a deadline distance (300 ms ... 10 min, or none), 1-3 scripts (quick commands, optional background process (exits on the deadline's interrupt; reacts to the clean-up's SIGINT promptly, after 3s / 40s, or never), one main foreground command that exits early, " +
-		"exits at the interrupt instant +-{1ns,1us,1ms,30ms}, or never, optionally with a descendant that holds its output pipes 0.5-40 ms longer; reaction to SIGQUIT: default, ignore, exit after a delay below / around / above the grace period; optional '!' prefix; lines after it), " +
+		"exits at the interrupt instant +-{1ns,1us,1ms,30ms}, or never, optionally with a descendant that holds its output pipes 0.5-40 ms longer; optionally printing 1.1 MB first; optionally a first line that tries a program file still open for writing; reaction to SIGQUIT: default, ignore, exit after a delay below / around / above the grace period; optional '!' prefix; lines after it), " +
 		"verbosity, work-directory retention (none / TestWork / WorkdirRoot), the number of subtests the T lets run at once (all, 1 or 2), whether a no-deadline twin run is compared, optionally an earlier RunT call in the same process with another deadline distance, and a schedule; non-trivial = a foreground command was interrupted or several scripts ran; distinct by decision-trace hash",
 	Gen:     genPlan,
 	NewPlan: func() any { return &Plan{} },
